@@ -345,6 +345,7 @@ inline void alloc_free_programs(const vf::opts &o, vf::report &R, uint64_t progr
                                         vf::jobj().kv("program", desc).kv("index", (unsigned long long)pn).kv("frames", fr).kv("ready_queue_allocs", dq).kv("detail", err).str()); continue; }
         R.nontrivial_cases++;
         R.sig(desc);
+        if (desc.rfind("[fresh thread]", 0) == 0) R.cls("programs_on_a_fresh_thread_with_zero_allocations_beyond_the_generator_frame");
         if (R.samples.size() < 5) R.sample(vf::jobj().kv("program", desc).kv("coroutine_frame_allocations", fr).kv("ready_queue_deque_allocations", dq).kv("other_allocations", 0).str());
     }
     R.cls("coroutine_frame_allocations", (uint64_t)total_frames);
